@@ -338,6 +338,17 @@ impl Ctx {
         }
     }
 
+    pub fn infra_error(&self, msg: &str) {
+        self.bump_class("infra_error_case_skipped", 1);
+        let mut ex = self.extra.lock().unwrap();
+        let e = ex.entry("infra_errors".to_string()).or_insert_with(|| json!([]));
+        if let Some(a) = e.as_array_mut() {
+            if a.len() < 5 {
+                a.push(json!(msg.chars().take(300).collect::<String>()));
+            }
+        }
+    }
+
     pub fn wall(&self) -> f64 {
         self.start.elapsed().as_secs_f64()
     }
@@ -421,11 +432,16 @@ impl Ctx {
             viol.len(),
             self.wall()
         );
-        if viol.is_empty() {
-            0
-        } else {
-            1
+        if !viol.is_empty() {
+            return 1;
         }
+        let infra = self.classes.lock().unwrap().get("infra_error_case_skipped").copied().unwrap_or(0);
+        let evals = self.evaluations.load(Ordering::Relaxed).max(1);
+        if infra * 10 > evals + infra {
+            println!("INCONCLUSIVE: {infra} cases could not be set up (harness infrastructure errors)");
+            return 2;
+        }
+        0
     }
 }
 
@@ -558,6 +574,12 @@ where
                                 }
                                 Ok(())
                             }
+                            Err(fail) if fail.key == "infra" => {
+                                // the harness itself could not set the case up (scratch I/O,
+                                // spawning a child …): never a verdict about the property
+                                ctx.infra_error(&fail.msg);
+                                Ok(())
+                            }
                             Err(fail) => {
                                 if ctx.classify(&fail) {
                                     // listed finding: count and carry on
@@ -577,13 +599,13 @@ where
                     });
                     match result {
                         Ok(()) => {}
-                        Err(TestError::Fail(_reason, value)) => {
+                        Err(TestError::Fail(reason, value)) => {
                             // re-run on the shrunk value to get the precise Fail
                             let fail = match guarded(&this.check, &value) {
                                 Err(f) => f,
                                 Ok(_) => Fail::new(
                                     "flaky",
-                                    "shrunk case passed on re-execution (non-deterministic check?)",
+                                    format!("shrunk case passed on re-execution (non-deterministic check?); failure seen during the search: {reason}"),
                                 ),
                             };
                             if fail.key == "flaky" || !ctx.classify(&fail) {
@@ -679,6 +701,10 @@ impl Ctx {
                 self.record(case, &info);
                 true
             }
+            Err(fail) if fail.key == "infra" => {
+                self.infra_error(&fail.msg);
+                true
+            }
             Err(fail) => {
                 if self.classify(&fail) {
                     self.record(case, fail.info.as_deref().unwrap_or(&CaseInfo::trivial()));
@@ -727,6 +753,10 @@ pub fn replay_file(ctx: &Ctx, arms: &[Box<dyn Arm>], path: &std::path::Path) -> 
     let res = arm.replay(ctx, v["case"].clone())?;
     match res {
         Ok(_) => Ok(true),
+        Err(fail) if fail.key == "infra" => {
+            ctx.infra_error(&fail.msg);
+            Ok(true)
+        }
         Err(fail) => {
             if ctx.classify(&fail) {
                 Ok(true)
